@@ -4,7 +4,7 @@ import SyneTune.Model.TabularBackend
 Driver for stream `sim` (C02, C10): run with
 `lake env lean --run SyneTune/Drivers/Sim.lean`.
 -/
-open Lean SyneTune SyneTune.Wire
+open Lean SyneTune SyneTune.Backend SyneTune.Wire
 
 structure DState where
   A : Arith
